@@ -278,7 +278,7 @@ def r5(run):
             run.ob("%s|cas-write|error-stops-commit" % run.facts.enclosing_fn(b), bool(err) and bool(ok) and not bad, w.sp,
                    "the result of writing into the CAS writer is examined and its error edge never reaches commit (%d error edge(s)%s)" % (
                        len(err), ", commit reachable at %s" % bad if bad else ""), reason="partial-content-committed")
-    run.floor("writes into a CAS writer that is committed in the same body", n, 4)
+    run.floor("writes into a CAS writer that is committed in the same body", n, 3)
 
 
 RULES = [
